@@ -373,6 +373,7 @@ def r4_operators(facts, rep):
                     if dom.decide(o.store, T("is_zero", rhs)) is True:
                         rep.ob("C01-R4", "div:%s:zero-divisor" % cls, u[0] == "err" and u[1] == "DivideByZero",
                                "a zero divisor yields %s" % (u[1] if u[0] == "err" else u[0]), o.site)
+    r4_totality(facts, rep, "C01-R4")
     # pow
     if anchor(rep, "C01-R4", facts, "eval::pow") is None:
         return
@@ -386,6 +387,52 @@ def r4_operators(facts, rep):
                   body.site()):
         return
     pow_piecewise(dom, body, outs, rep)
+
+
+def r4_totality(facts, rep, rule):
+    """No spurious arithmetic errors: +, - and * of commensurable operands always have a value; / fails only for a zero divisor."""
+    rep.rule(rule, rep.rules.get(rule, "") + ("  Totality: in the summaries of add / sub / mul an Err(DivideByZero) path exists only under "
+             "the impossible condition 'a denominator is zero'; in div only where the divisor (or a denominator) was tested zero; every "
+             "other error of the four operators is a unit error that follows a failed or negative verdict of the unit comparison / "
+             "conversion"))
+    av, bv = Sym("a.value"), Sym("b.value")
+    for fn in ("add", "sub", "mul", "div"):
+        if facts.fn("eval::" + fn) is None:
+            continue
+        for ea, eb in E.EMPTY_CLASSES:
+            cls = "a.unit %s, b.unit %s" % ("empty" if ea else "non-empty", "empty" if eb else "non-empty")
+            try:
+                dom, it, body, outs = E.run_binop(facts, fn, ea, eb)
+            except core.Undecided as e:
+                rep.ob(rule, "%s:%s:total" % (fn, cls), False, "undecided: %s" % e)
+                continue
+            bad = []
+            n_err = 0
+            for o in outs:
+                if o.kind != "ret":
+                    continue
+                u = E.unpack(o.value)
+                if u[0] != "err":
+                    continue
+                n_err += 1
+                pc = dom.pc(o.store)
+                log = dom.log(o.store)
+                pcs = "; ".join("%r=%s" % (p, b) for p, b in pc)
+                if u[1] == "DivideByZero":
+                    denom_zero = any(isinstance(p, T) and p.op == "is_zero" and isinstance(p.args[0], T) and p.args[0].op == "denom" and b is True for p, b in pc)
+                    divisor_zero = fn == "div" and any(isinstance(p, T) and p.op == "is_zero" and b is True and (
+                        "b.value" in repr(p.args[0]) or "mul_rhs" in repr(p.args[0])) for p, b in pc)
+                    if not (denom_zero or divisor_zero):
+                        bad.append("Err(DivideByZero) where %s: %s has a value there" % (pcs or "always", {"add": "a + b", "sub": "a - b", "mul": "a * b", "div": "a / b with a non-zero b"}[fn]))
+                elif u[1] in ("IllegalOperation", "ConversionNotPossible", "IllegalCast"):
+                    verdict = [e_ for e_ in log if e_[0] in ("factor", "unit_mul") and e_[1] in ("incommensurable", "error")]
+                    if not verdict:
+                        bad.append("Err(%s) without a failed unit comparison / conversion (where %s)" % (u[1], pcs))
+                else:
+                    bad.append("Err(%s) from eval::%s (where %s)" % (u[1], fn, pcs))
+            rep.ob(rule, "%s:%s:total" % (fn, cls), not bad, "; ".join(sorted(set(bad))[:3]) if bad else
+                   "eval::%s fails only with a unit error after a failed comparison / conversion%s (%d error path(s))" % (
+                       fn, " or for a zero divisor" if fn == "div" else "", n_err), facts.fn("eval::" + fn).site())
 
 
 def pow_piecewise(dom, body, outs, rep):
